@@ -2076,31 +2076,64 @@ func ruleRowCopies(c *Ctx, p *core.Program, rule string) {
 	c.R.Floor(rule, cfg, n, 10)
 }
 
-// ruleAutoKeepsCompatible (C16): a compatible column held by ColAuto is not replaced.
+// ruleAutoKeepsCompatible (C16 / C09): a compatible column held by ColAuto is not replaced.
 func ruleAutoKeepsCompatible(c *Ctx, p *core.Program, rule string) {
-	c.R.Rule(rule, "in ColAuto.Infer every store that replaces the held column (Data) is dominated by the test whether a column is already held (Data != nil, the entry of the `already compatible` shortcut): a fast path that installs a new column first drops the rows of a column that already has the requested type - a ColAuto that received a block and is inferred again before it is encoded (Client.Do does that for INSERT input) goes out with zero rows")
+	c.R.Rule(rule, "in ColAuto.Infer every store that replaces the held column (Data) is reachable only where no column is held (the nil side of a Data != nil test) or the held column's type conflicts with the requested one (the true side of a Conflicts test) - directly, or through the `not adopted` result of a helper of ColAuto whose every such return lies behind one of those edges: a fast path that installs a new column first, or a shortcut that keeps only Inferable columns, drops the rows of a column that already has a compatible type - a ColAuto that received a block and is inferred again before it is encoded (Client.Do does that for INSERT input) goes out with zero rows")
 	cfg := p.Cfg.Name
 	inf := p.Method(core.PkgProto, "ColAuto", "Infer")
 	if !c.must(p, "(*proto.ColAuto).Infer", inf != nil) {
 		return
 	}
-	recv := inf.Params[0]
-	isDataLoad := func(v ssa.Value) bool {
-		u, ok := v.(*ssa.UnOp)
-		if !ok || u.Op != token.MUL {
-			return false
+	// edges of fn (a method of ColAuto) on which nothing compatible is held
+	freeEdges := func(fn *ssa.Function) []core.Edge {
+		recv := fn.Params[0]
+		isDataLoad := func(v ssa.Value) bool {
+			u, ok := v.(*ssa.UnOp)
+			if !ok || u.Op != token.MUL {
+				return false
+			}
+			fa, ok := u.X.(*ssa.FieldAddr)
+			return ok && fa.X == ssa.Value(recv) && fieldNameOnly(fa.X.Type(), fa.Field) == "Data"
 		}
-		fa, ok := u.X.(*ssa.FieldAddr)
-		return ok && fa.X == ssa.Value(recv) && fieldNameOnly(fa.X.Type(), fa.Field) == "Data"
-	}
-	var tests []*ssa.BasicBlock
-	for _, b := range inf.Blocks {
-		if ifi, ok := b.Instrs[len(b.Instrs)-1].(*ssa.If); ok {
-			if x, _, ok := nilCmp(ifi.Cond); ok && isDataLoad(x) {
-				tests = append(tests, b)
+		var out []core.Edge
+		for _, b := range fn.Blocks {
+			ifi, ok := b.Instrs[len(b.Instrs)-1].(*ssa.If)
+			if !ok {
+				continue
+			}
+			if x, nn, ok := nilCmp(ifi.Cond); ok && isDataLoad(x) {
+				// nn: cond is x != nil -> nil side is succ 1
+				if nn {
+					out = append(out, core.Edge{B: b, Succ: 1})
+				} else {
+					out = append(out, core.Edge{B: b, Succ: 0})
+				}
+				continue
+			}
+			cv, pol := core.StripNot(ifi.Cond)
+			if _, ok := core.CallTo(cv, func(f *types.Func) bool { return core.IsMethod(f, core.PkgProto, "ColumnType", "Conflicts") }); ok {
+				if pol {
+					out = append(out, core.Edge{B: b, Succ: 0})
+				} else {
+					out = append(out, core.Edge{B: b, Succ: 1})
+				}
 			}
 		}
+		return out
 	}
+	edges := freeEdges(inf)
+	// `done, err := c.adopt(t); if done {...}`: the not-done edge counts when every return of the helper that
+	// yields false lies behind its own free edges
+	edges = append(edges, core.FlagEdges(inf, func(h *ssa.Function, ret *ssa.Return) bool {
+		if len(h.Params) == 0 || core.RecvNamed2(h) == nil || core.RecvNamed2(h).Obj().Name() != "ColAuto" {
+			return false
+		}
+		he := freeEdges(h)
+		return len(he) > 0 && core.OnlyViaEdges(h, ret, he)
+	})...)
+	// FlagEdges returns edges for both flag values that satisfy holds; only `false` (not adopted) returns lie
+	// behind free edges, `true` returns do not - so what is left is the not-adopted side
+	recv := inf.Params[0]
 	n := 0
 	bad := false
 	for _, b := range inf.Blocks {
@@ -2114,20 +2147,14 @@ func ruleAutoKeepsCompatible(c *Ctx, p *core.Program, rule string) {
 				continue
 			}
 			n++
-			dom := false
-			for _, t := range tests {
-				if t != b && t.Dominates(b) {
-					dom = true
-				}
-			}
-			if !dom {
+			if len(edges) == 0 || !core.OnlyViaEdges(inf, st, edges) {
 				bad = true
-				c.R.Bad(rule, sprintf("ColAuto.Infer/store#%d", n), cfg, p.Pos(st.Pos()), "the held column is replaced without having looked whether one is already held: rows of a column of the very type requested are dropped")
+				c.R.Bad(rule, sprintf("ColAuto.Infer/store#%d", n), cfg, p.Pos(st.Pos()), "the held column can be replaced although it is there and its type does not conflict with the requested one: its rows are dropped")
 			}
 		}
 	}
 	if !bad {
-		c.R.Ok(rule, "ColAuto.Infer", cfg, p.Pos(inf.Pos()), sprintf("%d stores to Data, all behind the Data != nil test", n))
+		c.R.Ok(rule, "ColAuto.Infer", cfg, p.Pos(inf.Pos()), sprintf("%d stores to Data, all behind `nothing held` or `held type conflicts`", n))
 	}
 	c.R.Count("stores to ColAuto.Data in Infer", n)
 	c.R.Floor(rule, cfg, n, 5)
